@@ -246,6 +246,11 @@ def run(chk):
         "AssignmentTrans._array_ranges_match) are OUTSIDE Model/AD.lean: they are generated (same-index increments, shifted "
         "scalar subscripts j/j+1/k/1, full ranges, rank 1 and 2), exported to MiniF by elementwise expansion with Fortran's "
         "evaluate-RHS-first semantics (constant section bounds) and checked against the transpose on unit vectors only",
+        "RETURN statements are OUTSIDE Model/AD.lean and MiniF: the early-exit family (passive IF blocks containing RETURN in "
+        "front of the first active statement; guard shapes x conditions x both outcomes) is exported to MiniF by RETURN "
+        "elimination (c19_real._export_with_return: the continuation is copied into both branches of an IF that may "
+        "return; RETURN inside a loop is not exportable) and checked against the transpose on unit vectors over ALL active "
+        "locations",
         "compiled harness (single precision, random data): a FAILED verdict with NaN/Infinity or a difference below 1e5 "
         "SPACING units is treated as inconclusive; every kernel's exact transpose check is independent of it"]
     chk.cov["trusted_base"] = ["Lean 4.33.0 kernel", "axioms propext/Classical.choice/Quot.sound only (audited)",
@@ -330,6 +335,31 @@ def run(chk):
         for kern, ev in zip(batch, evaluate_batch(batch, rng, [False] * len(batch))):
             handle(kern, "generated-sections", ev)
         done += len(batch)
+    # early-exit family (RETURN is outside Model/AD.lean: only the semantic check applies).  A guarded kernel whose
+    # guard falls through behaves like its unguarded twin with the same passive values: its failure is reported only
+    # when the twin passes (a failing twin is handled - known finding or violation - by the streams above)
+    import copy as _copy
+    for base, variants in G.guard_family(rng, 8 if thorough else 2, 6 if thorough else 2):
+        if len(chk.violations) >= 3:
+            break
+        twins = []
+        for kern, returns, over in variants:
+            tw = _copy.deepcopy(base)
+            tw.passive_vals.update(over)
+            twins.append(tw)
+        need = [i for i, v in enumerate(variants) if not v[1]]
+        batch = [v[0] for v in variants] + [twins[i] for i in need]
+        evs = evaluate_batch(batch, rng, [i % 3 == 0 for i in range(len(batch))])
+        twin_ev = {i: evs[len(variants) + j] for j, i in enumerate(need)}
+        for i, ((kern, returns, over), ev) in enumerate(zip(variants, evs)):
+            dist["guard_" + ("returns" if returns else "falls_through")] = dist.get(
+                "guard_" + ("returns" if returns else "falls_through"), 0) + 1
+            tw = twin_ev.get(i)
+            if tw is not None and (tw["status"] != "ok" or tw["defect"] is not None) and ev["status"] == tw["status"]:
+                dist["guard_twin_not_clean"] = dist.get("guard_twin_not_clean", 0) + 1
+                chk.case({"src": kern.src, "passive": kern.payload()["passive_vals"]}, nontrivial=False, agreed=True)
+                continue
+            handle(kern, "generated-early-return", ev)
     # kernels that must be refused, by the real code and by the linear-form exporter
     for _ in range(n_refused):
         what, src, active = G.refused_kernel(rng)
